@@ -1,8 +1,16 @@
 /-
 C13 — Schema and layout detection is exact.
-`Gen.Detect.detectGen` / `stampGen` are regenerated from schema.cpp and the
-schema_*.hpp creators on every run; the theorems are re-checked against them.
-All integer triples (unbounded `Int`), both marker values.
+Everything under `Gen.Detect` is regenerated from the source on every run
+(tools/tr_detect.py + tr_detect_full.py) and the theorems are re-checked against it:
+  `detectGen`        the nested switch of `detect_schema` (schema.cpp)
+  `detectSchemaGen`  the whole of `detect_schema`: Information lookup, the three STORED 64-bit
+                     numbers, the `fits_int` guard, the narrowing to `int`, then the switch
+  `loadDatabaseGen`  `load_database` with `detect_is_database2`, `load_legacy_sqlite_database`,
+                     `load_database2_sqlite_database`, `load_existing` (layout dispatch)
+  `stampGen`         the version each schema creator stamps
+  `enumGen` / `supportedGen` / `toStringGen`   the public table of engine_schema.hpp
+All integer triples (unbounded `Int`, hence every stored 64-bit value), both marker values,
+all sixteen presence combinations of directory / m.db / p.db / Database2/m.db.
 -/
 import EngineModel.Pure.Detect
 import EngineModel.Gen.DetectGen
@@ -21,11 +29,20 @@ set_option maxHeartbeats 4000000 in
 /-- Whatever is detected carries exactly that version and marker. -/
 theorem detect_sound (a b c : Int) (m : Bool) (s : Schema) (h : detectGen a b c m = .schema s) :
     s.version = (a, b, c) ∧ (s.marker = none ∨ s.marker = some m) := by
-  unfold detectGen at h
-  repeat' split at h
-  all_goals first
-    | (cases h; subst_vars; simp_all [Schema.version, Schema.marker]; done)
-    | (cases h; done)
+  -- Robust against any reordering / regrouping of the `switch` cases: fix each coordinate to one
+  -- of the constants of the public table (or to "none of them") and let `simp` evaluate the
+  -- regenerated tree, whatever its shape.
+  have ha : a = 1 ∨ a = 2 ∨ a = 3 ∨ (a ≠ 1 ∧ a ≠ 2 ∧ a ≠ 3) := by omega
+  have hb : b = 0 ∨ b = 6 ∨ b = 7 ∨ b = 9 ∨ b = 11 ∨ b = 13 ∨ b = 15 ∨ b = 17 ∨ b = 18 ∨ b = 20 ∨
+      b = 21 ∨ (b ≠ 0 ∧ b ≠ 6 ∧ b ≠ 7 ∧ b ≠ 9 ∧ b ≠ 11 ∧ b ≠ 13 ∧ b ≠ 15 ∧ b ≠ 17 ∧ b ≠ 18 ∧ b ≠ 20 ∧
+        b ≠ 21) := by omega
+  have hc : c = 0 ∨ c = 1 ∨ c = 2 ∨ c = 3 ∨ (c ≠ 0 ∧ c ≠ 1 ∧ c ≠ 2 ∧ c ≠ 3) := by omega
+  rcases ha with rfl | rfl | rfl | ha <;>
+  rcases hb with rfl | rfl | rfl | rfl | rfl | rfl | rfl | rfl | rfl | rfl | rfl | hb <;>
+  rcases hc with rfl | rfl | rfl | rfl | hc <;>
+  cases m <;>
+  simp_all [detectGen, Schema.version, Schema.marker] <;>
+  (subst h; simp [Schema.version, Schema.marker])
 
 /-- Every triple is classified exactly as the public version table says. -/
 theorem C13_exact (a b c : Int) (m : Bool) : detectGen a b c m = specDetect a b c m := by
@@ -62,25 +79,6 @@ theorem C13_reload (s : Schema) (m : Bool) (hm : s.marker = none ∨ s.marker = 
     detectGen (stampGen s).1 (stampGen s).2.1 (stampGen s).2.2 m = .schema s := by
   cases s <;> cases m <;> simp_all [Schema.marker] <;> decide
 
-/-- No version is ever identified as another one. -/
-theorem C13_no_misidentification (a b c : Int) (m : Bool) (s : Schema)
-    (h : detectGen a b c m = .schema s) :
-    s.version = (a, b, c) ∧ (s.marker = none ∨ s.marker = some m) := by
-  rw [C13_exact] at h
-  unfold specDetect at h
-  split at h
-  · rename_i s' hf
-    have := List.find?_some hf
-    simp at h
-    subst h
-    simp at this
-    obtain ⟨h1, h2⟩ := this
-    refine ⟨h1, ?_⟩
-    rcases h2 with h2 | h2
-    · left; simpa using h2
-    · right; simpa using h2
-  · simp at h
-
 /-- A triple is rejected exactly when no supported schema carries it. -/
 theorem C13_unsupported_iff (a b c : Int) (m : Bool) :
     detectGen a b c m = .unsupported ↔
@@ -110,21 +108,175 @@ theorem C13_unsupported_iff (a b c : Int) (m : Bool) :
       · right; simpa using h2
     · rfl
 
-/-- Layout dispatch: no database, or both layouts, is `database_not_found`;
-otherwise the outcome is determined by detection alone. -/
-theorem C13_layout (a b c : Int) (m : Bool) :
-    loadModel detectGen false false a b c m = .database_not_found ∧
-    loadModel detectGen true true a b c m = .database_not_found ∧
-    (∀ s, detectGen a b c m = .schema s → loadModel detectGen true false a b c m = .loaded s) ∧
-    (detectGen a b c m = .unsupported →
-      loadModel detectGen true false a b c m = .unsupported_database ∧
-      loadModel detectGen false true a b c m = .unsupported_database) ∧
-    (∀ s, detectGen a b c m = .schema s → Schema.schema_2_18_0.ord ≤ s.ord →
-      loadModel detectGen false true a b c m = .loaded s) := by
-  refine ⟨rfl, rfl, ?_, ?_, ?_⟩
-  · intro s h; simp [loadModel, h]
-  · intro h; simp [loadModel, h]
-  · intro s h hs; simp [loadModel, h, hs]
+/-! ### the whole of `detect_schema`: stored 64-bit numbers -/
+
+theorem fits_int_iff (v : Int) : fits_int v = true ↔ (-2147483648 ≤ v ∧ v ≤ 2147483647) := by
+  unfold fits_int
+  simp only [Bool.and_eq_true, decide_eq_true_eq]
+  omega
+
+theorem narrowI32_of_fits (v : Int) (h : fits_int v = true) : narrowI32 v = v := by
+  rw [fits_int_iff] at h; unfold narrowI32; omega
+
+/-- Every version in the public table is a triple of small numbers. -/
+theorem spec_schema_fits (a b c : Int) (m : Bool) (s : Schema)
+    (h : specDetect a b c m = .schema s) :
+    fits_int a = true ∧ fits_int b = true ∧ fits_int c = true := by
+  have hs : detectGen a b c m = .schema s := by rw [C13_exact]; exact h
+  obtain ⟨hv, -⟩ := detect_sound a b c m s hs
+  simp only [fits_int_iff]
+  cases s <;> (simp only [Schema.version, Prod.mk.injEq] at hv; obtain ⟨rfl, rfl, rfl⟩ := hv; omega)
+
+/-- **`detect_schema` is exact on the stored 64-bit numbers**: without exactly one `Information`
+table it is `database_inconsistency`; otherwise the outcome is the public table's, for every
+integer triple — the narrowing to `int` can never turn an unsupported triple into a supported one
+(it did before `fix:` 750424b, see `C13_narrowing_counterexample`). -/
+theorem C13_detect_exact (w : World) :
+    detectSchemaGen w =
+      if w.tableCount ≠ 1 then .error .database_inconsistency
+      else (specDetect w.vMajor w.vMinor w.vPatch w.numeric).toExcept := by
+  unfold detectSchemaGen detectPrefixGen
+  by_cases ht : w.tableCount ≠ 1
+  · simp [ht, bind, Except.bind, throw, throwThe, MonadExceptOf.throw]
+  · rw [if_neg ht]
+    by_cases hf : fits_int w.vMajor = true ∧ fits_int w.vMinor = true ∧ fits_int w.vPatch = true
+    · obtain ⟨h1, h2, h3⟩ := hf
+      simp only [ht, decide_false, h1, h2, h3, Bool.not_true, Bool.or_self, Bool.false_eq_true,
+        if_false, narrowI32_of_fits, C13_exact, bind, Except.bind, pure, Except.pure]
+    · have hu : specDetect w.vMajor w.vMinor w.vPatch w.numeric = .unsupported := by
+        cases hd : specDetect w.vMajor w.vMinor w.vPatch w.numeric with
+        | unsupported => rfl
+        | schema s => exact absurd (spec_schema_fits _ _ _ _ s hd) hf
+      have hc : (((!(fits_int w.vMajor)) || (!(fits_int w.vMinor))) || (!(fits_int w.vPatch))) = true := by
+        cases h1 : fits_int w.vMajor <;> cases h2 : fits_int w.vMinor <;>
+          cases h3 : fits_int w.vPatch <;> simp_all
+      simp [ht, hc, hu, Detected.toExcept, bind, Except.bind, throw, throwThe, MonadExceptOf.throw]
+
+/-- The guard is needed: narrowing alone identifies the stored triple (1, 6, 2^40) as schema
+1.6.0 — the historical misidentification (replayed on the library before `fix:` 750424b). -/
+theorem C13_narrowing_counterexample :
+    detectGen (narrowI32 1) (narrowI32 6) (narrowI32 1099511627776) false = .schema .schema_1_6_0 ∧
+    detectSchemaGen ⟨true, true, true, false, 1, 1, 6, 1099511627776, false⟩
+      = .error .unsupported_database :=
+  ⟨by decide, rfl⟩
+
+/-! ### layout dispatch -/
+
+/-- **Loading a directory is exactly the Spec** (`specLoad`, written from the property text):
+for every presence combination and every stored triple. -/
+theorem C13_load_exact (w : World) : LoadOutcome.ofExcept (loadDatabaseGen w) = specLoad w := by
+  unfold loadDatabaseGen detect_is_database2 load_existing load_legacy_sqlite_database
+    load_database2_sqlite_database specLoad
+  rw [C13_detect_exact]
+  rcases w with ⟨de, l, p, d, tc, a, b, c, m⟩
+  cases de <;> cases l <;> cases p <;> cases d <;>
+    simp [bind, Except.bind, pure, Except.pure, throw, throwThe, MonadExceptOf.throw,
+      LoadOutcome.ofExcept] <;>
+    (by_cases ht : tc = 1 <;> simp [ht, LoadOutcome.ofExcept]) <;>
+    (cases hd : specDetect a b c m <;> simp [Detected.toExcept, LoadOutcome.ofExcept]) <;>
+    (rename_i s; cases s <;> simp [Schema.ord, Schema.version, LoadOutcome.ofExcept])
+
+/-- The layout conjuncts, spelled out (corollaries of `C13_load_exact`):
+no directory, no database, or both layouts → `database_not_found`;
+a legacy library without `p.db`, or an `m.db` without exactly one `Information` table →
+`database_inconsistency`; otherwise detection alone decides — except that a Database2 directory
+stamped with a 1.x version is refused with `database_inconsistency`, while a legacy directory
+stamped 2.x / 3.x loads with that schema (the asymmetry is the code's; neither returns a schema
+other than the table's). -/
+theorem C13_layout (w : World) :
+    (w.dirExists = false → LoadOutcome.ofExcept (loadDatabaseGen w) = .database_not_found) ∧
+    (w.legacy = false → w.db2 = false →
+      LoadOutcome.ofExcept (loadDatabaseGen w) = .database_not_found) ∧
+    (w.legacy = true → w.db2 = true →
+      LoadOutcome.ofExcept (loadDatabaseGen w) = .database_not_found) ∧
+    (w.dirExists = true → w.legacy = true → w.db2 = false → w.pdb = false →
+      LoadOutcome.ofExcept (loadDatabaseGen w) = .database_inconsistency) ∧
+    (w.dirExists = true → w.legacy ≠ w.db2 → (w.legacy = true → w.pdb = true) → w.tableCount ≠ 1 →
+      LoadOutcome.ofExcept (loadDatabaseGen w) = .database_inconsistency) ∧
+    (w.dirExists = true → w.legacy ≠ w.db2 → (w.legacy = true → w.pdb = true) → w.tableCount = 1 →
+      specDetect w.vMajor w.vMinor w.vPatch w.numeric = .unsupported →
+      LoadOutcome.ofExcept (loadDatabaseGen w) = .unsupported_database) ∧
+    (∀ s, w.dirExists = true → w.legacy = true → w.db2 = false → w.pdb = true → w.tableCount = 1 →
+      specDetect w.vMajor w.vMinor w.vPatch w.numeric = .schema s →
+      LoadOutcome.ofExcept (loadDatabaseGen w) = .loaded s) ∧
+    (∀ s, w.dirExists = true → w.legacy = false → w.db2 = true → w.tableCount = 1 →
+      specDetect w.vMajor w.vMinor w.vPatch w.numeric = .schema s →
+      LoadOutcome.ofExcept (loadDatabaseGen w) =
+        if 2 ≤ s.version.1 then .loaded s else .database_inconsistency) := by
+  rw [C13_load_exact]
+  rcases w with ⟨de, l, p, d, tc, a, b, c, m⟩
+  unfold specLoad
+  refine ⟨?_, ?_, ?_, ?_, ?_, ?_, ?_, ?_⟩
+  · intro h; simp_all
+  · intro h1 h2; cases de <;> simp_all
+  · intro h1 h2; cases de <;> simp_all
+  · intro h1 h2 h3 h4; simp_all
+  · intro h1 h2 h3 h4
+    cases de <;> cases l <;> cases d <;> cases p <;> simp_all
+  · intro h1 h2 h3 h4 h5
+    cases de <;> cases l <;> cases d <;> cases p <;> simp_all
+  · rintro s rfl rfl rfl rfl rfl h; simp [h]
+  · rintro s rfl rfl rfl rfl h
+    simp only [h]
+    by_cases hv : 2 ≤ s.version.1
+    · simp [hv]
+    · simp [hv]
+
+/-- **No version is ever identified as another one**, on the whole load path and on the stored
+64-bit numbers: whatever schema `load_database` reports carries exactly the stored triple and
+the stored marker. -/
+theorem C13_no_misidentification (w : World) (s : Schema)
+    (h : loadDatabaseGen w = .ok s) :
+    s.version = (w.vMajor, w.vMinor, w.vPatch) ∧ (s.marker = none ∨ s.marker = some w.numeric) := by
+  have h1 : LoadOutcome.ofExcept (loadDatabaseGen w) = .loaded s := by rw [h]; rfl
+  rw [C13_load_exact] at h1
+  unfold specLoad at h1
+  have hd : specDetect w.vMajor w.vMinor w.vPatch w.numeric = .schema s := by
+    by_cases c1 : (!w.dirExists) = true
+    · rw [if_pos c1] at h1; cases h1
+    rw [if_neg c1] at h1
+    by_cases c2 : (!w.legacy && !w.db2) = true
+    · rw [if_pos c2] at h1; cases h1
+    rw [if_neg c2] at h1
+    by_cases c3 : (w.legacy && w.db2) = true
+    · rw [if_pos c3] at h1; cases h1
+    rw [if_neg c3] at h1
+    by_cases c4 : (w.legacy && !w.pdb) = true
+    · rw [if_pos c4] at h1; cases h1
+    rw [if_neg c4] at h1
+    by_cases c5 : w.tableCount ≠ 1
+    · rw [if_pos c5] at h1; cases h1
+    rw [if_neg c5] at h1
+    cases hd : specDetect w.vMajor w.vMinor w.vPatch w.numeric with
+    | unsupported => rw [hd] at h1; cases h1
+    | schema t =>
+      rw [hd] at h1
+      dsimp only at h1
+      by_cases c6 : (w.db2 && decide (t.version.1 < 2)) = true
+      · rw [if_pos c6] at h1; cases h1
+      · rw [if_neg c6] at h1; cases h1; rfl
+  have hs : detectGen w.vMajor w.vMinor w.vPatch w.numeric = .schema s := by rw [C13_exact]; exact hd
+  exact detect_sound _ _ _ _ s hs
+
+/-- Version and marker identify a schema: two schemas with the same version triple and the same
+marker are equal (so the table is a function *and* injective). -/
+theorem C13_version_marker_injective (s t : Schema)
+    (hv : s.version = t.version) (hm : s.marker = t.marker) : s = t := by
+  cases s <;> cases t <;> simp_all [Schema.version, Schema.marker]
+
+/-! ### the Spec table is the public header's -/
+
+/-- The hand-written `Schema` table (names, versions, markers) is exactly what
+include/djinterop/engine/engine_schema.hpp declares now: same enumerators in the same order,
+`to_string` = version triple (+ variant suffix), `supported_schemas` = all but `schema_3_0_0`.
+A new enumerator, a changed version string or a changed order makes this fail. -/
+theorem C13_spec_table :
+    enumGen = Schema.all.map Schema.name ∧
+    toStringGen = Schema.all.map (fun s => (s.name, s.versionString)) ∧
+    supportedGen = (Schema.all.filter (fun s => s != .schema_3_0_0)).map Schema.name ∧
+    (∀ s : Schema, s ∈ Schema.all) ∧
+    Schema.all.map Schema.ord = List.range 19 := by
+  refine ⟨by decide, by decide, by decide, mem_all, by decide⟩
 
 /-- create-or-load creates a library exactly when none exists (load says "not found"). -/
 theorem C13_create_or_load (o : LoadOutcome) (req : Schema) :
@@ -137,5 +289,18 @@ example : detectGen 2 21 2 false = .schema .schema_2_21_2 := by decide
 example : detectGen 1 18 0 true = .schema .schema_1_18_0_desktop ∧
     detectGen 1 18 0 false = .schema .schema_1_18_0_os := by decide
 example : detectGen 2 19 0 false = .unsupported ∧ detectGen 1 6 1 true = .unsupported := by decide
+/-- a Database2 directory stamped 2.21.2 loads; stamped 1.6.0 it is refused; a legacy one without
+p.db is refused; both layouts at once are "not found". -/
+example :
+    LoadOutcome.ofExcept (loadDatabaseGen ⟨true, false, false, true, 1, 2, 21, 2, false⟩)
+      = .loaded .schema_2_21_2 ∧
+    LoadOutcome.ofExcept (loadDatabaseGen ⟨true, false, false, true, 1, 1, 6, 0, false⟩)
+      = .database_inconsistency ∧
+    LoadOutcome.ofExcept (loadDatabaseGen ⟨true, true, false, false, 1, 1, 6, 0, false⟩)
+      = .database_inconsistency ∧
+    LoadOutcome.ofExcept (loadDatabaseGen ⟨true, true, true, false, 1, 2, 21, 2, false⟩)
+      = .loaded .schema_2_21_2 ∧
+    LoadOutcome.ofExcept (loadDatabaseGen ⟨true, true, true, true, 1, 1, 6, 0, false⟩)
+      = .database_not_found := by decide
 
 end EngineModel.Properties.C13
